@@ -352,7 +352,7 @@ def standin_roundtrip(tier, seed):
     store.record_measurement(cirq.MeasurementKey("m"), [0, 1], q_[:2])
     store.record_measurement(cirq.MeasurementKey("m"), [1, 1], q_[:2])
     store.record_channel_measurement(cirq.MeasurementKey("c"), 2)
-    used = [store, cirq.Duration(millis=2 ** 53 + 1), cirq.Duration(micros=2 ** 55 + 1), cirq.Duration(picos=2 ** 62 + 3)]  # (kept below the range of datetime.timedelta, which Duration hashes through)
+    used = [store, cirq.CZTargetGateset(preserve_moment_structure=False, reorder_operations=True), cirq.CZTargetGateset(preserve_moment_structure=False, allow_partial_czs=True), cirq.Duration(millis=2 ** 53 + 1), cirq.Duration(micros=2 ** 55 + 1), cirq.Duration(picos=2 ** 62 + 3)]  # (kept below the range of datetime.timedelta, which Duration hashes through)
     try:
         import cirq_google
         used += [cirq_google.study.Metadata(unit="ns"), cirq_google.study.Metadata(label="l", is_const=True, unit="GHz"), cirq_google.InternalGate("G", None, 1), cirq_google.InternalGate("G", "mod", 2, x=0.5)]
@@ -377,6 +377,10 @@ def standin_roundtrip(tier, seed):
              (cirq.PauliString({q_[0]: cirq.X, q_[1]: cirq.Z}), cirq.PauliString({q_[1]: cirq.Z, q_[0]: cirq.X})),
              (cirq.ParamResolver({"a": 1, "b": 2}), cirq.ParamResolver({"b": 2, "a": 1})),
              (cirq.Moment(cirq.X(q_[0]), cirq.Z(q_[1])), cirq.Moment(cirq.Z(q_[1]), cirq.X(q_[0])))]
+    # values that behave differently are not equal
+    cases += 1
+    if cirq.CZTargetGateset(preserve_moment_structure=False, reorder_operations=True) == cirq.CZTargetGateset():
+        fails.append(dict(args=dict(a="cirq.CZTargetGateset(preserve_moment_structure=False, reorder_operations=True)", b="cirq.CZTargetGateset()"), failed="different-values-compare-equal", clause="two target gatesets with different compilation options compare equal"))
     for x, y in pairs:
         cases += 1
         if x == y:
